@@ -192,6 +192,39 @@ func execL5(mode int, ty string, f []string) (string, bool) {
 	return "", false
 }
 
+
+// unInts5: tr.UnInts with two abbreviations for long inputs: "v*n" (n times v) and "a~b" (a, a+1, .. b).
+func unInts5(s string) []int {
+	if !strings.ContainsAny(s, "*~") {
+		return tr.UnInts(s)
+	}
+	var out []int
+	for _, p := range strings.Split(s, ",") {
+		if v, n, ok := strings.Cut(p, "*"); ok {
+			x, e1 := strconv.Atoi(v)
+			k, e2 := strconv.Atoi(n)
+			if e1 != nil || e2 != nil || k < 0 || k > 1<<17 {
+				panic("bad int " + p)
+			}
+			for ; k > 0; k-- {
+				out = append(out, x)
+			}
+		} else if a, b, ok := strings.Cut(p, "~"); ok {
+			x, e1 := strconv.Atoi(a)
+			y, e2 := strconv.Atoi(b)
+			if e1 != nil || e2 != nil || y-x > 1<<17 {
+				panic("bad int " + p)
+			}
+			for ; x <= y; x++ {
+				out = append(out, x)
+			}
+		} else {
+			out = append(out, tr.UnInts(p)...)
+		}
+	}
+	return out
+}
+
 // ---------------------------------------------------------------- generators
 
 // modelFits: the sizes up to which a line is replayed on the extracted model (its cost grows with
@@ -704,7 +737,39 @@ func genTyped5(g *tr.G, allSeqs func([]int, int) [][]int) {
 	}
 }
 
+// genThinLong: one input of exactly 2^15 and 2^16 - 1 .. 2^16 + 1 elements (thorough: 2^15 +- 1 too)
+// against a thin one: all equal, distinct with the LAST / the first and the last element in common,
+// nothing in common; both argument orders.  S lines with abbreviated lists ("7*65536", "1~65536":
+// the harness and the driver expand them).
+func genThinLong(g *tr.G) {
+	for _, n := range []int{1<<15 - 1, 1 << 15, 1<<15 + 1, 1<<16 - 1, 1 << 16, 1<<16 + 1} {
+		if !g.Thorough() && n < 1<<16-1 && n != 1<<15 {
+			continue
+		}
+		N := strconv.Itoa(n)
+		type pair struct{ long, thin string }
+		pairs := []pair{
+			{"7*" + N, "7,7,7"},
+			{"1~" + N, N},
+			{"1~" + N, "1," + N},
+			{"1~" + N, strconv.Itoa(n + 5)},
+			{"7*" + strconv.Itoa(n-1) + ",9", "9"},
+		}
+		for pi, p := range pairs {
+			a, b := p.long, p.thin
+			if (pi+n)%2 == 1 {
+				a, b = b, a
+			}
+			g.Emit("S 0 i E "+a+" "+b+" . 888", true, "typed:i", "thin-long", "spec-only", "long:len>=2^15")
+			if g.Thorough() {
+				g.Emit("S 0 i E "+b+" "+a+" 777 .", true, "typed:i", "thin-long", "spec-only", "long:len>=2^15")
+			}
+		}
+	}
+}
+
 func round5(g *tr.G, allSeqs func([]int, int) [][]int) {
+	genThinLong(g)
 	genTwoSided(g)
 	genOneDoubled(g)
 	genSharedSweep(g)
